@@ -746,3 +746,70 @@ func verifH_C02_same_fragment_in_progress() {
 	verifKnown("C02-in-progress-set-keyed-by-text", false)
 	verifReach("end")
 }
+
+//verif:harness id=C02 tier=quick,thorough witness=end bounds="a reference at every schema keyword position (not, allOf, oneOf, anyOf, items, properties, additionalProperties, and one level deeper below properties) x internal / external fragment / whole external file: after loading it resolves to the object it designates"
+func verifH_C02_schema_keywords() {
+	targets := []string{"#/components/schemas/T", "x.json#/components/schemas/T", "whole_schemas.json"}
+	r := `{"$ref":"` + targets[verifChoose("target", 3)] + `"}`
+	pos := verifChoose("position", 8)
+	var s string
+	switch pos {
+	case 0:
+		s = `{"not":` + r + `}`
+	case 1:
+		s = `{"allOf":[{"type":"string"},` + r + `]}`
+	case 2:
+		s = `{"oneOf":[` + r + `]}`
+	case 3:
+		s = `{"anyOf":[` + r + `,{"type":"integer"}]}`
+	case 4:
+		s = `{"type":"array","items":` + r + `}`
+	case 5:
+		s = `{"type":"object","properties":{"p":` + r + `}}`
+	case 6:
+		s = `{"type":"object","additionalProperties":` + r + `}`
+	case 7:
+		s = `{"type":"object","properties":{"q":{"not":{"type":"array","items":` + r + `}}}}`
+	}
+	rootText := `{"openapi":"3.0.0","info":{"title":"t","version":"1"},"paths":{},"components":{"schemas":{"S":` + s + `,"T":` + verifTargets["schemas"] + `}}}`
+	files := verifFiles()
+	rootLoc := &url.URL{Path: "/r/doc.json"}
+	loader := NewLoader()
+	loader.IsExternalRefsAllowed = true
+	loader.ReadFromURIFunc = func(_ *Loader, u *url.URL) ([]byte, error) {
+		if u.Path == rootLoc.Path {
+			return []byte(rootText), nil
+		}
+		if t, ok := files[u.Path]; ok {
+			return []byte(t), nil
+		}
+		return nil, errors.New("no such file")
+	}
+	doc, err := loader.LoadFromDataWithPath([]byte(rootText), rootLoc)
+	verifAssert(err == nil && doc != nil, "C02 keywords: the document loads")
+	if err != nil || doc == nil {
+		return
+	}
+	v := doc.Components.Schemas["S"].Value
+	var at *SchemaRef
+	switch pos {
+	case 0:
+		at = v.Not
+	case 1:
+		at = v.AllOf[1]
+	case 2:
+		at = v.OneOf[0]
+	case 3:
+		at = v.AnyOf[0]
+	case 4:
+		at = v.Items
+	case 5:
+		at = v.Properties["p"]
+	case 6:
+		at = v.AdditionalProperties.Schema
+	case 7:
+		at = v.Properties["q"].Value.Not.Value.Items
+	}
+	verifAssert(at != nil && at.Value != nil && at.Value.Type.Is("string") && at.Value.MinLength == 3, "C02 keywords: a reference below a schema keyword resolves to the object it designates")
+	verifReach("end")
+}
